@@ -31,6 +31,7 @@ REQUIRED_FLAGS = {'escape_first': 1, 'escape_middle': 1, 'escape_repeated': 1, '
 ESC = b'\x1d'
 ALPHA = [b'a', ESC, b'\xc3', b'\xa9', b'\r']
 CHILD_CHUNKS = [b'x\xc3', b'\xa9y']
+CHILD_CHUNKS_X = [b'x', b'xy']          # with the stripping output filter the first read filters down to b''
 
 
 class FakeStdout(object):
@@ -68,11 +69,30 @@ def dup_in(b):
     return b.replace(b'a', b'A')
 
 
+def strip_out(b):          # may return b'' for a whole read
+    return b.replace(b'x', b'')
+
+
+def expand_in(b):          # length-changing (longer)
+    return b.replace(b'\r', b'\r\n')
+
+
+def shrink_in(b):          # length-changing (shorter)
+    return b.replace(b'a', b'')
+
+
+IN_FILTERS = {'in': dup_in, 'both': dup_in, 'expand-in': expand_in, 'shrink-in': shrink_in}
+OUT_FILTERS = {'out': upper_out, 'both': upper_out, 'strip-out': strip_out}
+
+
 CONFIGS = []
 for filt in ('none', 'in', 'out', 'both'):
     for mode in ('bytes', 'utf-8'):
         CONFIGS.append(dict(filt=filt, mode=mode, esc='default', poll=False, pending=False))
-CONFIGS += [dict(filt='none', mode='bytes', esc='none', poll=False, pending=False),
+CONFIGS += [dict(filt='strip-out', mode='bytes', esc='default', poll=False, pending=False),
+            dict(filt='expand-in', mode='bytes', esc='default', poll=False, pending=False),
+            dict(filt='shrink-in', mode='bytes', esc='default', poll=True, pending=False),
+            dict(filt='none', mode='bytes', esc='none', poll=False, pending=False),
             dict(filt='none', mode='bytes', esc='q', poll=False, pending=False),
             dict(filt='none', mode='bytes', esc='default', poll=True, pending=False),
             dict(filt='none', mode='bytes', esc='default', poll=False, pending=True),
@@ -139,7 +159,7 @@ def run_interact(ch, cfg, pieces, merge, ending, logs=False):
                 typed += p
                 env.add('fn', (lambda d=p: env.hbuf[os_].extend(d)))
             else:
-                c = CHILD_CHUNKS[ci]
+                c = (CHILD_CHUNKS_X if cfg['filt'] == 'strip-out' else CHILD_CHUNKS)[ci]
                 ci += 1
                 child_out.append(c)
                 env.add('w', c, fd=sp.hs_slave)
@@ -151,8 +171,8 @@ def run_interact(ch, cfg, pieces, merge, ending, logs=False):
                 env.add('exit', (sp.hs_proc, 0))
         else:
             env.add('exit', (sp.hs_proc, 0))
-        in_f = dup_in if cfg['filt'] in ('in', 'both') else None
-        out_f = upper_out if cfg['filt'] in ('out', 'both') else None
+        in_f = IN_FILTERS.get(cfg['filt'])
+        out_f = OUT_FILTERS.get(cfg['filt'])
         try:
             sp.interact(escape_character=escchar, input_filter=in_f, output_filter=out_f)
             ret = 'returned'
@@ -186,15 +206,26 @@ def run_interact(ch, cfg, pieces, merge, ending, logs=False):
             want_flush = pending if enc is None else pending.encode(enc)
             if flushed != want_flush:
                 viol = ('pending-flush', 'pending buffer %r was flushed to stdout as %r' % (want_flush, flushed))
-            want_screen = upper_out(consumed_out) if out_f else consumed_out
+            want_screen = out_f(consumed_out) if out_f else consumed_out
             if viol is None and screen != want_screen:
                 viol = ('screen', 'user saw %r, the child wrote %r (filter %s)' % (screen, consumed_out, cfg['filt']))
             # keystrokes: everything read before the first escape character, nothing after
             read_keys = typed[:len(typed) - len(keys_left)] if keys_left else typed
             if keys_unfired:
+                # pieces not yet typed: only the fired prefix was available
+                n_fired = len(pieces) - (keys_unfired - (1 if (ending == 'escape' and escbyte is not None) else 0))
+                fired_typed = b''.join(pieces[:max(0, n_fired)])
+                read_now = fired_typed[:len(fired_typed) - len(keys_left)] if keys_left else fired_typed
+                seen_esc = escbyte is not None and escbyte in (in_f(read_now) if in_f else read_now)
                 read_keys = None
+            else:
+                seen_esc = escbyte is not None and escbyte in (in_f(read_keys) if in_f else read_keys)
+            # interact() may only return because the escape character was typed or the child is gone
+            if viol is None and not seen_esc and sp.hs_proc.alive():
+                viol = ('early-return', 'interact() returned although no escape character was typed and the child is alive '
+                        '(screen %r, typed so far %r)' % (screen, typed))
             if viol is None and read_keys is not None:
-                filt_keys = dup_in(read_keys) if in_f else read_keys
+                filt_keys = in_f(read_keys) if in_f else read_keys
                 if escbyte is not None and escbyte in filt_keys:
                     want_child = filt_keys[:filt_keys.index(escbyte)]
                     child_gone = not sp.hs_proc.alive()
@@ -259,7 +290,7 @@ def run_task(task):
     acc = Acc()
     cfg = CONFIGS[task['cfg']]
     bound = 1 if task['tier'] == 'quick' else 2
-    for t, pieces, mg in scripts(task['tier'], base=(task['cfg'] in (0, 1))):
+    for t, pieces, mg in scripts(task['tier'], base=(task['cfg'] in (0, 1) or CONFIGS[task['cfg']]['filt'] in ('strip-out', 'expand-in', 'shrink-in'))):
         def run(ch):
             return run_interact(ch, cfg, pieces, mg, task['ending'])
         for ch, (obs, viol) in dfs(run, bound=bound):
